@@ -3,14 +3,16 @@ namespace DaeVerif.C13.Drain
 
 def Inv (s : St) : Prop := s.active = outstanding s ∧ (s.idleClosed = true ↔ s.active = 0)
 
-theorem inv_init : Inv init := by simp [Inv, init, outstanding]
+theorem inv_init : Inv init := by simp [Inv, init, outstanding, cntFalse]
 
-theorem outstanding_append_false (l : List Bool) :
-    ((l ++ [false]).filter (· == false)).length = (l.filter (· == false)).length + 1 := by
-  simp [List.filter_append]
+theorem cntFalse_append_false : ∀ (l : List Bool), cntFalse (l ++ [false]) = cntFalse l + 1 := by
+  intro l
+  induction l with
+  | nil => simp [cntFalse]
+  | cons b l ih => simp [cntFalse, ih]; omega
 
-theorem outstanding_set_true : ∀ (l : List Bool) (i : Nat), l[i]? = some false →
-    ((l.set i true).filter (· == false)).length + 1 = (l.filter (· == false)).length := by
+theorem cntFalse_set_true : ∀ (l : List Bool) (i : Nat), l[i]? = some false →
+    cntFalse (l.set i true) + 1 = cntFalse l := by
   intro l
   induction l with
   | nil => intro i h; simp at h
@@ -18,37 +20,44 @@ theorem outstanding_set_true : ∀ (l : List Bool) (i : Nat), l[i]? = some false
     intro i h
     cases i with
     | zero =>
-      simp at h; subst h; simp [List.set]
+      simp at h; subst h; simp [List.set, cntFalse]; omega
     | succ n =>
       simp at h
       have := ih n h
-      cases b <;> simp [List.set, List.filter] <;> omega
+      simp [List.set, cntFalse]; omega
 
 theorem step_inv {s : St} (h : Inv s) (op : Op) : Inv (step s op) := by
   obtain ⟨h1, h2⟩ := h
   cases op with
   | acquire =>
     simp only [step, acquire, Inv, outstanding]
-    refine ⟨by rw [outstanding_append_false]; simp [outstanding] at h1; omega, ?_⟩
+    refine ⟨by rw [cntFalse_append_false]; simp [outstanding] at h1; omega, ?_⟩
     by_cases h0 : s.active = 0
     · simp [h0]
-    · simp [h0]; intro hc; exact h0 (h2.mp hc)
+    · have : s.idleClosed = false := by
+        cases hc : s.idleClosed
+        · rfl
+        · exact absurd (h2.mp hc) h0
+      simp [h0, this]
   | release i =>
     simp only [step, release]
     split
     · exact ⟨h1, h2⟩
     · exact ⟨h1, h2⟩
     · rename_i hi
-      have hset := outstanding_set_true s.released i hi
+      have hset := cntFalse_set_true s.released i hi
       simp only [outstanding] at h1
       by_cases h0 : s.active = 0
-      · -- unreachable: an unreleased ticket exists, so active ≥ 1
-        exfalso; omega
+      · exfalso; omega
       · simp only [h0, if_false, Inv, outstanding]
         refine ⟨by omega, ?_⟩
         by_cases h1' : s.active - 1 = 0
         · simp [h1']
-        · simp [h1']; intro hc; exact h0 (h2.mp hc)
+        · have : s.idleClosed = false := by
+            cases hc : s.idleClosed
+            · rfl
+            · exact absurd (h2.mp hc) h0
+          simp [h1', this]
 
 theorem run_inv : ∀ (ops : List Op) (s : St), Inv s → Inv (run s ops) := by
   intro ops
